@@ -348,14 +348,16 @@ class C05(Prop):
         "C05_images_idempotent_partial": "hypothesis Uniq (identity collisions): automatic from 1.1 on (C05_images_uniq_from_1_1), a real "
                                          "restriction for <= 1.0 documents (F11, C05_images_F11_witness); equality of the re-read manifest is "
                                          "as multisets of filings (C02), byte equality of the second text is validated per case",
-        "C05_ci_loaded_is_normal_partial": "compose/release sections valid and WellKeyed are proved for every version; validity of every variant "
-                                           "against its parent and the sorted order of children are not (validated per case)",
-        "C05_ci_idempotent_partial": "hypothesis 'the writer accepts the loaded object' (serialize x = ok j) is explicit; that every loaded "
-                                     "object is writable (a document holding one UID twice at different levels is not: F14) is validated per "
-                                     "case, not proved",
-        "C05_ti_loaded_is_normal_partial": "per-section validity and current header for every version incl. 0.0; no Lean idempotence theorem for "
-                                           "treeinfo because C04 has no reader-half theorem to compose with: idempotence is proved on witnesses "
-                                           "(0.3, 0.0) and validated on every fixture / generated file",
+        "C05_ci_loaded_is_normal_partial": "proved for every version and depth: sections and base product valid, every variant valid against "
+                                           "its parent (ValidVs), variant releases valid, WellKeyed; C01's Normal (final only with a label, "
+                                           "sorted children) is false of what the reader returns (C05_ci_loaded_not_normal_witness) and is "
+                                           "settled by the first write",
+        "C05_ti_loaded_is_normal_partial": "per-section validity and current header for every version incl. 0.0; per-variant validity below "
+                                           "the container is not stated (C05_ti_idempotent carries ReadValid of the normal form instead)",
+        "C05_ti_idempotent": "full statement for every header version; hypotheses are the decidable side conditions of C04_tree_bytes that a "
+                             "load does not establish (F17 timestamp, F24 top-level addon, F25 platform name, comma-free non-empty distinct "
+                             "UIDs / platforms, text representability, ReadValid of the normal form); timestamp integrality, UID keying, "
+                             "ChecksumsOK and image keys are discharged from the legacy reader",
         "C05_ci_upgrade_witness": "faithfulness for composeinfo is proved per section / on witnesses (C05_ci_upgrade_witness, "
                         "C05_ci_faithful_product_not_internal); the general forest theorem deserialize_v (down_v x) = ok (expect_v x) is "
                         "not proved (validated per case by the spec-level down-converter)",
@@ -869,13 +871,17 @@ MANIFEST = dict(
          "_le_0_3 / _gt_0_3): a flipped operator or moved bound stops the proof. Legacy readers extend the current ones "
          "(C05_*_extends_C0n). Loaded-is-normal for any version: images (valid images with proper ints, admissible arches, valid compose, current "
          "version), rpms (current version, valid compose, JSON-representable mapping - unconditionally for a replayed 0.3 manifest), composeinfo "
-         "(sections valid, WellKeyed at every depth for explicit and prefix-derived forests), treeinfo incl. 0.0 (current header, every section "
-         "object validated). Idempotence as corollaries: images with C02 (Uniq automatic from 1.1), rpms with C03 (bytes), composeinfo with C01 "
-         "(readback + fixpoint); the re-read goes through the CURRENT reader, i.e. conversion happens once. Faithful: images subvariant default "
-         "and version independence from 1.1 (all 15 attributes), product section never internal, witnesses for rpms 0.2, composeinfo 0.2, "
-         "treeinfo 0.3 and 0.0 evaluated in the kernel; F11 / F12 / F32 witnesses.",
-    note="Partial: no general forest-faithfulness theorem for composeinfo < 1.0 and no Lean idempotence theorem for treeinfo (C04 has no "
-         "reader-half theorem); both are validated per case. treeinfo 0.0: idempotence + fixtures + correspondence only. Known findings met: "
-         "F10 (respin >= 8 digits decoded from the id), F11, F12, F24 (top-level addon), F32 (legacy forest of depth >= 3 refused). "
-         "Documents reach both sides with sorted keys; int(float(text)) is an oracle table.",
+         "(sections and base product valid, EVERY variant valid against its parent at any depth for explicit and prefix-derived forests, "
+         "WellKeyed), treeinfo incl. 0.0 (current header, every section object validated). Idempotence through the CURRENT reader (conversion "
+         "happens once): images with C02 (Uniq automatic from 1.1), rpms with C03 (bytes), composeinfo with C01 assuming only the load and a "
+         "successful dump (C05_ci_idempotent, _bytes), treeinfo for every header version with C04_tree_bytes (C05_ti_idempotent: timestamp "
+         "integrality, UID keying, ChecksumsOK, image keys discharged from the legacy reader; F17/F24/F25 and file-syntax conditions carried, "
+         "all satisfied by the 0.3 and 0.0 witnesses). Faithful: images subvariant default and version independence from 1.1 (all 15 "
+         "attributes), product section never internal, prefix forest = explicit child lists for top level and children under stated "
+         "conditions (C05_ci_faithful_tops / _children), witnesses for rpms 0.2, composeinfo 0.2, treeinfo 0.3 and 0.0 evaluated in the "
+         "kernel; F11 / F12 / F32 / not-Normal witnesses.",
+    note="Partial: the two forest-faithfulness facts are not assembled through buildL into deserialize(down d) = deserialize d (validated per "
+         "case); C01's Normal is false of what the composeinfo reader returns (witness) and is settled by the first write. treeinfo 0.0 "
+         "mapping: fixtures + correspondence + idempotence only. Known findings met: F10, F11, F12, F24, F32. Documents reach both sides "
+         "with sorted keys; int(float(text)) is an oracle table.",
     ref="7/C05")
